@@ -36,6 +36,17 @@ func (jf *jsonFormatter) generate(
 		}
 	}
 
+	// The remaining keys of a struct with additional properties are collected from the raw map.
+	if structType, ok := declType.Type.(*codegen.StructType); ok {
+		for _, f := range structType.Fields {
+			if f.Name == additionalProperties {
+				forceBefore = true
+
+				break
+			}
+		}
+	}
+
 	return func(out *codegen.Emitter) {
 		out.Commentf("Unmarshal%s implements %s.Unmarshaler.", strings.ToUpper(formatJSON), formatJSON)
 		out.Printlnf("func (j *%s) Unmarshal%s(value []byte) error {", declType.Name, strings.ToUpper(formatJSON))
